@@ -106,6 +106,10 @@ class SpecGen:
         r = self.rng
         c = r.random()
         name = r.choice([None, None, 'p', 'radius', 'a b'])
+        if name is not None and self.npscalars and not self.plain_only \
+                and r.random() < 0.1:
+            # a name taken from an array of labels
+            name = {'np': 'str_', 'v': name}
         if c < 0.4:
             lo = rfloat(r, 0, 2, 4)
             kw = {'lower_bound': lo, 'upper_bound': round(lo + rfloat(
